@@ -250,8 +250,11 @@ def inspect_and_continue_std(out, kw, pre, res):
     # the resumed run completes with a valid result
     mon = StdMonitor()
     try:
-        with mon.installed():
+        with mon.installed(), runs.std_draw_cap():
             fs2.run(plot=False, save=False)
+    except runs.DrawCap as e:
+        errs.append(("resumed-run-does-not-terminate", str(e)[:300]))
+        return
     except Exception as e:
         errs.append((f"resumed-run-raises-{type(e).__name__}", str(e)[:300]))
         return
@@ -404,7 +407,7 @@ def ins_case(item):
     mon = runs.InsMonitor()
     mon.rederived = True
     try:
-        with mon.installed():
+        with mon.installed(), runs.ins_draw_cap():
             fs2 = FlowSampler(m2, output=out, resume=True, **kw2)
             if state["existed"] and not replaced and fs2.ns.iteration != state.get("ckpt_iteration", target):
                 errs.append(("ins:resumed-at-wrong-iteration", f"{fs2.ns.iteration} vs {state.get('ckpt_iteration', target)}"))
@@ -412,6 +415,8 @@ def ins_case(item):
         errs += [(f"resumed:{c}", d) for c, d in mon.errs[:2]]
         if not errs:
             runs.check_ins_results(fs2, m2, errs)
+    except runs.DrawCap as e:
+        errs.append(("resumed-run-does-not-terminate", str(e)[:300]))
     except Exception as e:
         errs.append((f"resumed-run-raises-{type(e).__name__}", str(e)[:300]))
     shutil.rmtree(out, ignore_errors=True)
